@@ -170,8 +170,8 @@ impl Link {
 //@@ qmark
 //@@ ret Result<AttachS, SendAttachErrorKind>
 //@@ subst `BytesMut::new()` => `BytesMutS::new()` rule=R11
-//@@ subst `let mut serializer = Serializer::from((&mut buf).writer()); attach .serialize(&mut serializer) .map_err(|_v0| SendAttachErrorKind::IllegalState)?;` => `serialize_attach(self, &attach, &mut buf).map_err(|_v0: SerErr| -> (o: SendAttachErrorKind) { SendAttachErrorKind::IllegalState })?;` rule=R9
-//@@ subst `let mut serializer = Serializer::from((&mut buf).writer()); attach .serialize(&mut serializer) .map_err(|_v1| SendAttachErrorKind::IllegalState)?;` => `serialize_attach(self, &attach, &mut buf).map_err(|_v1: SerErr| -> (o: SendAttachErrorKind) { SendAttachErrorKind::IllegalState })?;` rule=R9
+//@@ subst `let mut serializer = Serializer::from((&mut buf).writer()); attach .serialize(&mut serializer) .map_err(|_v0| SendAttachErrorKind::IllegalState)?;` => `serialize_attach(self, &attach, &mut buf).map_err(|_v0: SerErr| -> (o: SendAttachErrorKind) { SendAttachErrorKind::IllegalState })?;` rule=optional-R9
+//@@ subst `let mut serializer = Serializer::from((&mut buf).writer()); attach .serialize(&mut serializer) .map_err(|_v1| SendAttachErrorKind::IllegalState)?;` => `serialize_attach(self, &attach, &mut buf).map_err(|_v1: SerErr| -> (o: SendAttachErrorKind) { SendAttachErrorKind::IllegalState })?;` rule=optional-R9
 //@@ loop 0
             invariant
                 denominator >= 1, buf.n@ == asz(attach),
